@@ -16,7 +16,7 @@ RULE = (
     "with 1-4 recording fields (empty flag, length declaration, allowed characters varied) and 0-3 recording checks "
     "(accepting / vetoing marked rows / failing at the end) x tables of 0-6 rows (empty, blank-only, disallowed-character, "
     "wrong-length, hook-rejected cells, wrong item counts, vetoed rows) x header 0-2 x validation limit x the three error "
-    "modes x reader and writer x delimited and fixed x 1-3 consecutive runs on one CID (a Reader that was read and closed may be asked for its rows once more: a run of its own). The recorded call log must equal "
+    "modes x reader (cutplace.rows, Reader, cutplace.validate) and writer x delimited and fixed x 1-3 consecutive runs on one CID (a Reader that was read and closed may be asked for its rows once more: a run of its own). The recorded call log must equal "
     "the sequence M-protocol predicts (reset at least once before the first row of each data set and never later; value "
     "hooks only for guarded-clean cells in column order up to the first rejected cell; check_row in declaration order "
     "until the first veto; check_at_end once for every check in declaration order, whether or not an earlier one failed; cleanup of every check; no "
@@ -273,6 +273,9 @@ def run_reader(cid, model, table, mode, limit, api):
                     # handed to the caller tells where
                     location = getattr(item, "location", None)
                     ERRORS_SEEN.append([number + model.header, type(item).__name__, None if location is None else location.line + 1, str(item)])
+        elif api == "validate":
+            # the validate-only API: raises at the first rejected row, and nothing beyond the limit causes a call
+            cutplace.validate(cid, source, validate_until=limit)
         elif api in ("reader", "reader-again"):
             if api == "reader-again" and KEEP.get("reader") is not None:
                 # the Reader of the run before (read completely or aborted, and closed) is asked for its rows once
@@ -467,8 +470,10 @@ def declaration_errors(ctx, index):
 def gen_plan(rng, model, table):
     plan = []
     for _ in range(rng.randint(1, 3)):
-        api = rng.choice(["rows", "reader", "writer"])
+        api = rng.choice(["rows", "reader", "writer", "validate"])
         mode = rng.choice(["raise", "yield", "continue"])
+        if api == "validate":
+            mode = "raise"
         limit = rng.choice([None, None, 0, 1, 2, 3, len(table)])
         if api == "writer":
             mode, limit = None, None
